@@ -367,7 +367,7 @@ def quick_dates(n=3):
 
 
 # ------------------------------------------------------------------ pointer structures (C12 / C01)
-AGES = {"K": 10, "k": 3, "Y": 20, "A": 40, "R": 70}
+AGES = {"K": 10, "k": 3, "Y": 24, "Z": 25, "A": 40, "R": 70}  # Y / Z sit on both sides of the under-25 bound
 
 
 def structures_for_roles(rs, two_households=True):
